@@ -153,7 +153,17 @@ func ExtractValue(v reflect.Value, extractor ValueExtractor) {
 	// follow pointers and interfaces down to the value; a nil pointer still tells its element
 	// type, which is walked with a zero value so that the types behind it are found as well
 	var nilTypes []reflect.Type
+	var ptrs []uintptr
 	for v.Kind() == reflect.Ptr || v.Kind() == reflect.Interface {
+		if v.Kind() == reflect.Ptr && !v.IsNil() {
+			// nothing behind a chain of pointers that leads back into itself (var i interface{}; i = &i)
+			for _, p := range ptrs {
+				if p == v.Pointer() {
+					return
+				}
+			}
+			ptrs = append(ptrs, v.Pointer())
+		}
 		if v.IsNil() {
 			if v.Kind() == reflect.Interface {
 				return
